@@ -115,6 +115,8 @@ func runC05CLI(c *engine.Case) engine.Result {
 	return res
 }
 
+// firstLine returns the first line of a process's stderr without the log time stamp and without
+// scratch directory names, so that a violation message is the same on every re-execution.
 func firstLine(s string) string {
 	if i := strings.Index(s, "\n"); i >= 0 {
 		s = s[:i]
